@@ -275,6 +275,8 @@ class Gen(object):
             kinds += ['syntax', 'syntax']
         if getattr(self, 'calls', False):
             kinds += ['callable', 'callable', 'callable']
+        if getattr(self, 'events', False):
+            kinds += ['event', 'event']
         k = r.choice(kinds)
         if k == 'assign':
             ty = r.choice(['int', 'int', 'bool', 'str'])
@@ -422,6 +424,8 @@ class Gen(object):
             return self.syntax_stmt()
         if k == 'callable':
             return self.callable_stmt()
+        if k == 'event':
+            return self.event_stmt()
         return None
 
     # name-resolved invocations of the callables every C05/C06 model declares (see vt/callgen.py, vt/adapters/prebuildgen.py)
@@ -437,9 +441,13 @@ class Gen(object):
         la = self.live_insts('A')
         if la:
             kinds += ['instop', 'instop_value']
-        if self.home in ('op', 'derived'):
+        if self.home in ('op', 'derived', 'state'):
             kinds += ['self_attr', 'self_read', 'self_op', 'self_relate', 'self_relate', 'self_relate', 'self_select']
+        if getattr(self, 'events', False):
+            kinds += ['event'] * 5
         k = r.choice(kinds)
+        if k == 'event':
+            return self.event_stmt()
 
         def assign_new(ty, prefix, e):
             # the value is generated before the variable exists
@@ -594,6 +602,59 @@ class Gen(object):
         return None
 
     # statement productions that are only parsed (events, bridges, operations, ports, arrays, enumerators)
+    # the state machines of the corpus model (vt/adapters/prebuildgen.py declares them): label -> (meaning, data items)
+    INST_EVENTS = {'A': {'A1': ("'go'", [('x', 'int'), ('flag', 'bool'), ('s', 'str')]), 'A2': ("'stop now'", []),
+                         'A3': ("'set'", [('n', 'int')])},
+                   'B': {'B1': ("'ping'", [('n', 'int'), ('m', 'int')])}}
+    CLASS_EVENTS = {'A': {'A_A1': ("'tick'", [('n', 'int')]), 'A_A2': ("'reset'", [])}}
+
+    def event_stmt(self):
+        """a name-resolved event statement: generate to an instance / a creator / a class (assigner) state machine, create
+        event instance ..., generate of an event instance created before.  The data items are supplied by name in any
+        order; an event variable is declared by the first create event statement that names it"""
+        r = self.rnd
+
+        def spec(table, c):
+            label = r.choice(sorted(table[c]))
+            meaning, items = table[c][label]
+            items = list(items)
+            r.shuffle(items)
+            data = [{'n': n, 'e': self.maybe_paren(self.expr(ty, self.maxdepth - 1))} for n, ty in items]
+            return {'id': label, 'poly': False, 'meaning': meaning, 'hasdata': bool(data) or r.random() < 0.5, 'data': data}
+        targets = [(V(n), c) for n, c in self.live_insts() if c in self.INST_EVENTS]
+        if self.home in ('op', 'derived', 'state'):
+            targets.append(({'t': 'self'}, 'A'))
+        evs = self.vars_of('event')
+        kinds = ['gen_creator', 'gen_class', 'create_creator', 'create_class'] + (['gen_inst', 'gen_inst', 'create_inst'] if targets else []) \
+            + (['gen_pre', 'gen_pre'] if evs else [])
+        k = r.choice(kinds)
+
+        def evvar():
+            # an event variable seen before (it is assigned again) or a new one
+            if evs and r.random() < 0.4:
+                return r.choice(evs)
+            return self.fresh('event', 'ev')
+        if k == 'gen_inst':
+            to, c = r.choice(targets)
+            return {'t': 'gen_inst', 'ev': spec(self.INST_EVENTS, c), 'to': to}
+        if k == 'gen_creator':
+            c = r.choice(sorted(self.INST_EVENTS))
+            return {'t': 'gen_class', 'ev': spec(self.INST_EVENTS, c), 'k': c, 'word': 'creator'}
+        if k == 'gen_class':
+            return {'t': 'gen_class', 'ev': spec(self.CLASS_EVENTS, 'A'), 'k': 'A', 'word': 'class'}
+        if k == 'gen_pre':
+            return {'t': 'gen_pre', 'e': V(r.choice(evs))}
+        if k == 'create_inst':
+            to, c = r.choice(targets)
+            ev = spec(self.INST_EVENTS, c)
+            return {'t': 'create_ev_inst', 'v': evvar(), 'ev': ev, 'to': to}
+        if k == 'create_creator':
+            c = r.choice(sorted(self.INST_EVENTS))
+            ev = spec(self.INST_EVENTS, c)
+            return {'t': 'create_ev_class', 'v': evvar(), 'ev': ev, 'k': c, 'word': 'creator'}
+        ev = spec(self.CLASS_EVENTS, 'A')
+        return {'t': 'create_ev_class', 'v': evvar(), 'ev': ev, 'k': 'A', 'word': 'class'}
+
     def syntax_stmt(self):
         r = self.rnd
         ps = lambda: [{'n': r.choice(['p', 'q', 'value']), 'e': self.expr(r.choice(['int', 'bool', 'str']))}
